@@ -201,6 +201,16 @@ def corpus():
         for cl in ("client-test01", "client-test02"):
             out.append(("/v1.AccountManager/Generate", cl, msg(fld(1, LEN, b"Wallet 3/Single %d" % pi), fld(2, LEN, b"pass"), fld(3, VARINT, np_), fld(4, VARINT, th_)), "generate-dist-corner"))
     out.append(("/v1.AccountManager/Generate", "client-test01", msg(fld(1, LEN, b"Wallet 3/Single np"), fld(3, VARINT, 1), fld(4, VARINT, 1)), "generate-dist-corner"))
+    # callers that give up after a few milliseconds, on batches large enough for the deadline to fall anywhere inside the
+    # handling (valid requests, advancing epochs): whatever the daemon does with an abandoned request, it keeps serving
+    dom_att = bytes([1, 0, 0, 0]) + bytes(28)
+    for rnd, dl in enumerate([1, 2, 3, 5, 8, 12, 20, 1, 2, 3, 5, 8]):
+        reqs = []
+        for ai in range(16):
+            data = msg(fld(1, VARINT, 1), fld(2, VARINT, 1), fld(3, LEN, bytes(32)), fld(4, LEN, msg(fld(1, VARINT, 70000 + rnd), fld(2, LEN, bytes(32)))),
+                       fld(5, LEN, msg(fld(1, VARINT, 70001 + rnd), fld(2, LEN, bytes(32)))))
+            reqs.append(fld(1, LEN, msg(fld(2, LEN, b"Wallet 1/Account %d" % ai), fld(3, LEN, dom_att), fld(4, LEN, data))))
+        out.append(("dl:%d:/v1.Signer/SignBeaconAttestations" % dl, "client-test01", msg(*reqs), "abandoned-batch"))
     for rp in REGEX_PAYLOADS:
         for pre in (b"Wallet 1/", b"Nope/", b""):
             out.append(("/v1.Lister/ListAccounts", "client-test01" if pre != b"Nope/" else "client-test02", msg(fld(1, LEN, pre + rp)), "list-regex-syntax"))
